@@ -922,43 +922,35 @@ fn device_case(ctx: &mut Ctx, kind: usize, spec: &[TS], ratio: f32) {
                         &format!("C03/device-state-time/{}", name),
                         ctx.sub,
                         ctx.case,
-                        format!("terminal #{} own state after update is {:?}; expected stamp {} = newest of the contributing state reads {:?}; {}", k, other, t, rs, det()),
+                        format!("terminal #{} own state after update is {:?}; expected stamp {} = newest of the state reads that contribute to it; state reads of all terminals {:?}; {}", k, other, t, rs, det()),
                     ),
                 }
             }
         }
     }
-    // ---- commands (one-degree-of-freedom devices propagate the newest command)
+    // ---- commands: one-degree-of-freedom devices propagate a command. Which terminals receive it
+    // is the device's business; what this property demands is that whatever command a device
+    // writes during update is the newest of the command reads (a selection), i.e. every own command
+    // slot that changed carries the newest command stamp.
     let newest_c = rc.iter().flatten().cloned().max();
-    if let Some(m) = newest_c {
-        let carries = |k: usize| matches!(after[k].1, Some(d) if d.time.0 == m);
-        match kind {
-            0 | 2..=7 => {
-                for k in 0..n {
-                    ctx.rep.eval();
-                    ctx.rep.tally("device_command_writes_checked");
-                    if !carries(k) {
-                        ctx.rep.violation(&format!("C03/device-command-time/{}", name), ctx.sub, ctx.case, format!("terminal #{} own command after update is {:?}; newest command read has stamp {} (reads {:?}); {}", k, after[k].1, m, rc, det()));
-                    }
-                }
-            }
-            1 => {
-                // the newest command is propagated to the opposite side; on a tie either direction
-                ctx.rep.eval();
-                ctx.rep.tally("device_command_writes_checked");
-                let ok = match (rc[0], rc[1]) {
-                    (Some(a), Some(b)) if a == b => carries(0) || carries(1),
-                    (Some(a), Some(b)) if a > b => carries(1),
-                    (Some(_), Some(_)) => carries(0),
-                    (Some(_), None) => carries(1),
-                    (None, Some(_)) => carries(0),
-                    (None, None) => true,
-                };
-                if !ok {
-                    ctx.rep.violation(&format!("C03/device-command-time/{}", name), ctx.sub, ctx.case, format!("newest command (stamp {}, reads {:?}) did not arrive on the opposite terminal with its stamp; {}", m, rc, det()));
-                }
-            }
-            _ => {}
+    for k in 0..n {
+        let changed = match (&before[k].1, &after[k].1) {
+            (None, None) => false,
+            (Some(a), Some(b)) => !dident(a, b),
+            _ => true,
+        };
+        if !changed {
+            continue;
+        }
+        ctx.rep.eval();
+        ctx.rep.tally("device_command_writes_checked");
+        ctx.rep.tally(&format!("device_command_writes_checked/{}", name));
+        let ok = match (after[k].1, newest_c) {
+            (Some(d), Some(m)) => d.time.0 == m,
+            _ => false,
+        };
+        if !ok {
+            ctx.rep.violation(&format!("C03/device-command-time/{}", name), ctx.sub, ctx.case, format!("terminal #{} own command changed to {:?} during update; the newest command read has stamp {:?} (command reads {:?}); {}", k, after[k].1, newest_c, rc, det()));
         }
     }
 }
@@ -1277,6 +1269,9 @@ fn main() {
     rep.floor("device_command_writes_checked", 1_000);
     for k in KINDS.iter() {
         rep.floor(&format!("device_state_writes_checked/{}", k), 50);
+    }
+    for k in KINDS.iter().take(8) {
+        rep.floor(&format!("device_command_writes_checked/{}", k), 50);
     }
     rep.finish(&args);
 }
